@@ -132,8 +132,11 @@ func (c *VCtx) load(fr *Frame, st *State, p Val, pos token.Pos) Val {
 			h := c.heap(st, l.Heap, ArrSort(SRef, ArrSort(SInt, l.Sort)))
 			v = Select(Select(h, l.Base), l.Idx)
 		case "arr":
-			// whole-array load: value is the backing ref (arrays are only supported through their address)
-			unsup("load of whole array value")
+			// whole-array load: the value is the (immutable) contents
+			at := l.GT.Underlying().(*types.Array)
+			es := sortOf(at.Elem())
+			h := c.heap(st, elemHeapName(es), ArrSort(SRef, ArrSort(SInt, es)))
+			return c.name("arrv", Select(h, l.Base))
 		}
 		v.GT = l.GT
 		if l.Sort == SInt || l.Sort == SSlice || l.Sort == SStr {
@@ -204,6 +207,9 @@ func (c *VCtx) zeroInit(st *State, r *Term, t types.Type) {
 		if at, ok := ft.Underlying().(*types.Array); ok {
 			es := sortOf(at.Elem())
 			arr := c.arrOf(r, t, f.Name(), ft)
+			al := c.allocHeap(st)
+			c.fact(And(Not(Select(al, arr)), Not(Eq(arr, Null))))
+			c.setHeap(st, "G:alloc", Store(al, arr, True))
 			hn := elemHeapName(es)
 			h := c.heap(st, hn, ArrSort(SRef, ArrSort(SInt, es)))
 			z := c.asTerm(c.zero(at.Elem()))
@@ -521,9 +527,20 @@ func (c *VCtx) loopHead(fr *Frame, li *loopInfo, st *State, phis []*ssa.Phi) {
 	if all {
 		c.havocAll(st)
 	} else {
+		bases := c.fieldStoreBases(fr, li)
 		for h := range mods {
 			if _, known := c.heapSorts[h]; !known {
 				c.heapSorts[h] = mods[h]
+			}
+			if bs, ok := bases[h]; ok && bs != nil {
+				// only the entries of loop-invariant objects are written: havoc just those
+				cur := c.heap(st, h, mods[h])
+				_, vs := arrParts(mods[h])
+				for _, b := range bs {
+					cur = Store(cur, b, c.fresh("hv", vs))
+				}
+				st.heaps[h] = c.name("h", cur)
+				continue
 			}
 			c.havocHeap(st, h)
 		}
@@ -573,6 +590,61 @@ func (c *VCtx) loopBack(fr *Frame, li *loopInfo, st *State, from *ssa.BasicBlock
 	for p, v := range saved {
 		fr.env[p] = v
 	}
+}
+
+// fieldStoreBases: for field heaps that the loop body writes only directly (no calls that could write them)
+// and only through objects defined before the loop, the set of those objects; nil entry = unknown.
+func (c *VCtx) fieldStoreBases(fr *Frame, li *loopInfo) map[string][]*Term {
+	out := map[string][]*Term{}
+	viaCall := map[string]bool{}
+	for b := range li.body {
+		for _, in := range b.Instrs {
+			switch x := in.(type) {
+			case *ssa.Store:
+				fa, ok := x.Addr.(*ssa.FieldAddr)
+				if !ok {
+					continue
+				}
+				stT := deref(fa.X.Type())
+				f := stT.Underlying().(*types.Struct).Field(fa.Field)
+				hn := fieldHeapName(stT, f.Name())
+				base, ok := fr.env[fa.X].(*Term)
+				if _, isParam := fa.X.(*ssa.Parameter); isParam {
+					base, ok = fr.env[fa.X].(*Term)
+				}
+				if !ok || li.body[blockOf(fa.X)] {
+					out[hn] = nil
+					viaCall[hn] = true
+					continue
+				}
+				if !viaCall[hn] {
+					dup := false
+					for _, t := range out[hn] {
+						if t.S == base.S {
+							dup = true
+						}
+					}
+					if !dup {
+						out[hn] = append(out[hn], base)
+					}
+				}
+			case ssa.CallInstruction:
+				m2, _ := c.callModSet(fr.fn, x.Common(), 0)
+				for h := range m2 {
+					viaCall[h] = true
+					out[h] = nil
+				}
+			}
+		}
+	}
+	return out
+}
+
+func blockOf(v ssa.Value) *ssa.BasicBlock {
+	if in, ok := v.(ssa.Instruction); ok {
+		return in.Block()
+	}
+	return nil
 }
 
 // modSet computes the heaps a set of blocks may modify (by name -> sort); all=true means "anything".
